@@ -173,15 +173,24 @@ impl Props for TagProps {
         f(emit::Str::new("ctxt_tag"), emit::Value::from(self.0))
     }
 }
+/// How often each configuration's context was entered and exited (a context whose `enter` and `exit` are different
+/// things: every frame that is entered through the slot must be exited through it).
+static CTXT_ENTERS: [AtomicUsize; 8] = [const { AtomicUsize::new(0) }; 8];
+static CTXT_EXITS: [AtomicUsize; 8] = [const { AtomicUsize::new(0) }; 8];
+
 impl Ctxt for TagCtxt {
     type Current = TagProps;
     type Frame = ();
     fn open_root<P: Props>(&self, _: P) -> Self::Frame {}
-    fn enter(&self, _: &mut Self::Frame) {}
+    fn enter(&self, _: &mut Self::Frame) {
+        CTXT_ENTERS[self.0 as usize].fetch_add(1, Ordering::SeqCst);
+    }
     fn with_current<R, F: FnOnce(&Self::Current) -> R>(&self, with: F) -> R {
         with(&TagProps(self.0))
     }
-    fn exit(&self, _: &mut Self::Frame) {}
+    fn exit(&self, _: &mut Self::Frame) {
+        CTXT_EXITS[self.0 as usize].fetch_add(1, Ordering::SeqCst);
+    }
     fn close(&self, _: Self::Frame) {}
 }
 
@@ -521,6 +530,13 @@ fn main() {
         // after everything settled the slot is enabled and complete
         if !slot.is_enabled() {
             violations.push("not_enabled_at_end".into());
+        }
+    }
+    // every frame entered on a configuration's context was exited on it (all threads have been joined)
+    for i in 0..8 {
+        let (en, ex) = (CTXT_ENTERS[i].load(Ordering::SeqCst), CTXT_EXITS[i].load(Ordering::SeqCst));
+        if en != ex {
+            violations.push(format!("ctxt_enter_exit_unbalanced the context of configuration {i} was entered {en} times and exited {ex} times"));
         }
     }
     let mut flips = flips.lock().unwrap().clone();
